@@ -6,6 +6,7 @@ from typing import Any, Dict
 from .. import compare as cmp
 from ..core import Outcome, Prop
 from . import slices
+from .component import MULTIINDEX, compare_mi_c01
 
 
 def signature(vec: Dict[str, Any]) -> str:
@@ -30,6 +31,8 @@ def nontrivial(vec: Dict[str, Any]) -> bool:
 
 
 def compare(vec: Dict[str, Any], obs: Dict[str, Any]) -> Outcome:
+    if vec.get("kind") == "multiindex":
+        return compare_mi_c01(vec, obs)
     oc = Outcome()
     sat = bool(vec["expect"]["sat"])
     for mode in ("eager", "lazy"):
@@ -51,7 +54,7 @@ def compare(vec: Dict[str, Any], obs: Dict[str, Any]) -> Outcome:
 PROP = Prop(
     id="C01",
     title="Validation verdict equals the declared schema semantics (pandas)",
-    slices=[slices.SERIES] + slices.FRAME_SLICES,
+    slices=[slices.SERIES] + slices.FRAME_SLICES + [MULTIINDEX],
     compare=compare,
     rule=("TLC enumerates every (schema, data) pair of the exhaustive slices and proves that the staged pipeline "
           "accepts exactly when the declarative meaning Sat holds; every emitted pair is replayed through the real "
